@@ -206,7 +206,11 @@ impl Model {
 fn fit_as<F: linfa::Float>(c: &Case, b: &Built, k: usize, max_iter: u64, n_runs: u64) -> Option<Result<GaussianMixtureModel<F>, GmmError>> {
     let rows: Vec<&[f64]> = b.rows.iter().map(|r| r.as_slice()).collect();
     let records = rows_to_array::<F>(&rows, b.dims)?;
-    let dataset = DatasetBase::from(records);
+    // memory layout of the training records, derived from the case (see `train_mem`): the logical matrix is the same
+    let m = train_mem(c);
+    let junk = <F as num_traits::NumCast>::from(1.0e30)?;
+    let backing = crate::mem::backing(&records, m, junk);
+    let (n, p) = records.dim();
     let params = GaussianMixtureModel::<F>::params_with_rng(k, Xoshiro256Plus::seed_from_u64(c.rng_seed))
         .init_method(match c.init {
             Init::KMeans => GmmInitMethod::KMeans,
@@ -216,7 +220,21 @@ fn fit_as<F: linfa::Float>(c: &Case, b: &Built, k: usize, max_iter: u64, n_runs:
         .tolerance(<F as num_traits::NumCast>::from(c.tol())?)
         .n_runs(n_runs)
         .max_n_iterations(max_iter);
-    Some(params.fit(&dataset))
+    if crate::mem::is_view(m) {
+        Some(params.fit(&DatasetBase::from(crate::mem::view_of(&backing, m, n, p))))
+    } else {
+        Some(params.fit(&DatasetBase::from(crate::mem::owned(&records, m))))
+    }
+}
+
+/// Memory layout of the training records (index into `mem::mem_name`), a function of the generated RNG seed so that
+/// every stored case keeps its meaning: owned row-/column-major, views row-/column-major / strided with gaps / reversed rows.
+pub fn train_mem(c: &Case) -> u8 {
+    (c.rng_seed % crate::mem::MEMS as u64) as u8
+}
+/// memory layout of the query batches handed to predict / predict_proba
+pub fn query_mem(c_seed: u64) -> u8 {
+    ((c_seed / crate::mem::MEMS as u64) % crate::mem::MEMS as u64) as u8
 }
 
 fn classify_case(c: &Case, b: &Built, obs: &mut Obs) {
@@ -225,6 +243,7 @@ fn classify_case(c: &Case, b: &Built, obs: &mut Obs) {
         Layout::Overlapping => "layout_overlapping",
         Layout::Anisotropic => "layout_anisotropic",
     });
+    obs.class(crate::mem::mem_name(train_mem(c)));
     obs.class(match c.degenerate {
         Degenerate::None => "data_generic",
         Degenerate::ConstantColumn => "data_constant_column",
